@@ -152,3 +152,163 @@ def run():
                                     hn, ", ".join(changed) or "a class-level default")))
                                 break
     return {"cases": n, "failures": failures, "keep": len(keep_alive)}
+
+
+# ------------------------------------------------------------------ a spec subclass's OWN do_not_copy list
+def own_dnc_family(eager):
+    """Base lists parts / index / kl in do_not_copy.  Spec subclasses that inherit, re-default by a
+    bare class attribute, re-default through Attr(default=...), restate part of the list, list another
+    attribute; plain subclasses and further spec subclasses below them; and the reverse direction
+    (parent lists nothing, the subclass lists what it re-defaults).  Returns (Part, [(class,
+    names the class's nearest spec class lists in ITS decorator)])."""
+    from typing import Dict, List
+
+    from spec_classes import Attr, spec_class
+    from spec_classes.types import KeyedList
+    kw = {"bootstrap": True} if eager else {}
+    mod = {"__module__": "verif_generated"}
+
+    def mk(name, bases, ann, body, spec=True, **skw):
+        raw = type(name, bases, dict(mod, __qualname__=name, __annotations__=dict(ann), **body))
+        return spec_class(**skw, **kw)(raw) if spec else raw
+
+    Part = mk("Part", (), {"name": str, "tags": List[int]}, {"tags": []}, key="name")
+    ann = {"parts": List[Part], "index": Dict[str, int], "kl": KeyedList[Part, str], "free": List[int], "label": str}
+    Base = mk("Base", (), ann, {"parts": [], "index": {}, "free": [0], "label": "base"}, do_not_copy=["parts", "index", "kl"])
+    redef = lambda: {"parts": [Part("seed")], "index": {"seed": 0}, "kl": KeyedList[Part, str]([Part("k")])}  # noqa: E731
+    Inheriting = mk("Inheriting", (Base,), {"extra": int}, {"extra": 0})
+    Redefaulting = mk("Redefaulting", (Base,), {"extra": int}, dict(redef(), extra=0))
+    RedefaultingBare = mk("RedefaultingBare", (Base,), {}, redef())
+    RedefaultingAttr = mk("RedefaultingAttr", (Base,), {}, {"parts": Attr(default=[Part("seed")]), "index": {"seed": 0}})
+    Restating = mk("Restating", (Base,), {}, redef(), do_not_copy=["parts"])
+    ListingOther = mk("ListingOther", (Base,), {}, dict(redef(), free=[5]), do_not_copy=["free"])
+    PlainRedefaulting = mk("PlainRedefaulting", (Redefaulting,), {}, {}, spec=False)
+    PlainRedefaultingAgain = mk("PlainRedefaultingAgain", (Redefaulting,), {}, {"parts": [Part("again")]}, spec=False)
+    Redefaulting2 = mk("Redefaulting2", (Redefaulting,), {"more": int}, {"more": 0})
+    Redefaulting3 = mk("Redefaulting3", (Redefaulting,), {}, {"index": {"three": 3}})
+    SpecOverPlain = mk("SpecOverPlain", (PlainRedefaulting,), {}, {"parts": [Part("sp")]})
+    BelowRestating = mk("BelowRestating", (Restating,), {}, {"parts": [Part("br")]})
+    PlainOfBase = mk("PlainOfBase", (Base,), {}, {"parts": [Part("pb")]}, spec=False)
+    Free = mk("Free", (), ann, {"parts": [], "index": {}, "free": [0], "label": "free"})
+    FreeSub = mk("FreeSub", (Free,), {}, {"parts": [Part("fs")], "index": {"fs": 1}}, do_not_copy=["parts"])
+    PlainOfFreeSub = mk("PlainOfFreeSub", (FreeSub,), {}, {}, spec=False)
+    BelowFreeSub = mk("BelowFreeSub", (FreeSub,), {}, {"parts": [Part("bfs")]})
+    three = ("parts", "index", "kl")
+    return Part, [(Base, three), (Inheriting, ()), (Redefaulting, ()), (RedefaultingBare, ()), (RedefaultingAttr, ()),
+                  (Restating, ("parts",)), (ListingOther, ("free",)), (PlainRedefaulting, ()), (PlainRedefaultingAgain, ()),
+                  (Redefaulting2, ()), (Redefaulting3, ()), (SpecOverPlain, ()), (BelowRestating, ()), (PlainOfBase, three),
+                  (Free, ()), (FreeSub, ("parts",)), (PlainOfFreeSub, ("parts",)), (BelowFreeSub, ())]
+
+
+def poke(Part, attr, v):
+    """in-place mutation of whatever a default holds: nested instances first, then the container"""
+    if isinstance(v, dict):
+        v["zz"] = 7
+        return
+    for p in list(v):
+        if isinstance(p, Part):
+            p.tags.append(7)
+    v.append(Part("zz") if attr in ("parts", "kl") else 7)
+
+
+def run_own_dnc():
+    """Oracle (the property statement on object identities; do_not_copy as declared by the nearest
+    spec class's own decorator): for every class of own_dnc_family and every mutable attribute:
+    two peers from the same argument; a do_not_copy attribute holds the argument by identity, any
+    other shares no mutable object with the argument, the peer or a class-level default; copies made
+    by reset_<other>() / with_<other>() / update / transform / deepcopy share the attribute by identity
+    iff it is do_not_copy and otherwise nothing; an in-place mutation through one holder leaves the
+    other holders and the class-level defaults as they were; del / reset_<a> install a fresh value
+    equal to what a new instance holds."""
+    from spec_classes.types import KeyedList
+    keep_alive, failures, n = [], [], 0
+    for eager in (False, True):
+        Part, classes = own_dnc_family(eager)
+        args = {
+            "parts": (lambda: [Part("a", tags=[1])], lambda v: (v.append(Part("b")), v[0].tags.append(7))),
+            "index": (lambda: {"a": 1}, lambda v: v.__setitem__("k", 7)),
+            "kl": (lambda: KeyedList[Part, str]([Part("a", tags=[1])]), lambda v: v["a"].tags.append(7)),
+            "free": (lambda: [1, 2], lambda v: v.append(7)),
+        }
+        for cls, listed in classes:
+            for attr, (make, mutate) in args.items():
+                dnc = attr in listed
+                where = {"eager": eager, "class": cls.__name__, "attr": attr, "declared_do_not_copy": list(listed)}
+                n += 1
+                arg = make()
+                a, b = cls(**{attr: arg}), cls(**{attr: arg, "label": "L"})
+                keep_alive += [arg, a, b]
+                if snapshot(getattr(a, attr)) != snapshot(make()):
+                    failures.append(dict(where, what="stored value differs from the argument", got=repr(getattr(a, attr))))
+                    continue
+                where["Attr.do_not_copy"] = cls.__spec_class__.attrs[attr].do_not_copy
+                derived = [("reset_label()", lambda: b.reset_label()), ("with_label('x')", lambda: b.with_label("x")),
+                           ("update(label='y')", lambda: b.update(label="y")), ("deepcopy", lambda: copy.deepcopy(b)),
+                           ("transform(label=...)", lambda: b.transform(label=lambda s: s + "!"))]
+                if dnc:
+                    if getattr(a, attr) is not arg or getattr(b, attr) is not arg:
+                        failures.append(dict(where, what="do_not_copy attribute does not hold the argument by identity"))
+                        continue
+                    for name, f in derived:
+                        c = f()
+                        keep_alive.append(c)
+                        if getattr(c, attr) is not arg:
+                            failures.append(dict(where, what="%s duplicates the do_not_copy attribute" % name))
+                            break
+                    continue
+                roots = {"argument": reach(arg), "peer A": reach(a), "peer B": reach(b), "class defaults": class_defaults(cls)}
+                copies = []
+                for name, f in derived:
+                    c = f()
+                    keep_alive.append(c)
+                    copies.append((name, c))
+                    roots["copy of peer B by " + name] = reach(getattr(c, attr))
+                names = list(roots)
+                shared = [(p, q, type(roots[p][i]).__name__) for x, p in enumerate(names) for q in names[x + 1:]
+                          for i in roots[p] if i in roots[q]]
+                if shared:
+                    failures.append(dict(where, what="mutable object reachable from %s and from %s (%s)" % shared[0]))
+                    continue
+                holders = {"A": lambda: getattr(a, attr), "B": lambda: getattr(b, attr), "arg": lambda: arg}
+                for name, c in copies[:2]:
+                    holders[name] = lambda c=c: getattr(c, attr)
+                dflt = lambda: snapshot(sorted((k, repr(v)) for k, v in class_defaults(cls).items()))  # noqa: E731
+                d0 = dflt()
+                broke = False
+                for hn in list(holders):
+                    before = {o: snapshot(holders[o]()) for o in holders if o != hn}
+                    mutate(holders[hn]())
+                    changed = [o for o in before if snapshot(holders[o]()) != before[o]]
+                    if changed or dflt() != d0:
+                        failures.append(dict(where, what="in-place mutation through %s changed %s" % (
+                            hn, ", ".join(changed) or "a class-level default")))
+                        broke = True
+                        break
+                if broke:
+                    continue
+                # del / reset_<attr>: what a new instance holds, fresh
+                for form in ("del", "reset_inplace", "reset_copy"):
+                    fresh = cls()
+                    if form == "del":
+                        delattr(a, attr)
+                        got = a
+                    elif form == "reset_inplace":
+                        got = getattr(b, "reset_" + attr)(_inplace=True)
+                    else:
+                        got = getattr(copies[0][1], "reset_" + attr)()
+                    keep_alive += [fresh, got]
+                    gv, fv = vars(got).get(attr, "<absent>"), vars(fresh).get(attr, "<absent>")
+                    if snapshot(gv) != snapshot(fv):
+                        failures.append(dict(where, what="after %s the attribute differs from a new instance's" % form,
+                                             got=repr(gv), fresh=repr(fv)))
+                        break
+                    if not isinstance(gv, str):
+                        both = [i for i in reach(gv) if i in reach(fv) or i in class_defaults(cls)]
+                        if both:
+                            failures.append(dict(where, what="after %s the attribute shares a mutable object with a new instance or a class-level default" % form))
+                            break
+                        poke(Part, attr, gv)
+                        if dflt() != d0 or snapshot(vars(cls()).get(attr)) != snapshot(fv):
+                            failures.append(dict(where, what="in-place mutation after %s reached a class-level default" % form))
+                            break
+    return {"cases": n, "failures": failures, "keep": len(keep_alive)}
